@@ -92,6 +92,7 @@ twin('C07', 'pyiga/bspline.py', 'pyiga.bspline.tp_bsp_jac_pointwise', r"result\[
 twin('C07', 'pyiga/bspline.py', 'pyiga.bspline.BSplineFunc.translate', r"self\.coeffs \+ offset", 'np.add(self.coeffs, offset)', 'np.add instead of +')
 # ---- C08
 brk('C08', 'R08.1', 'pyiga/mlmatrix_cy.pyx', None, r"\n    for i in range\(M\):\n        bi0, bi1 = bidx1\[i,0\], bidx1\[i,1\]", '\n    for i in prange(M, schedule=\'static\', nogil=True):\n        bi0, bi1 = bidx1[i,0], bidx1[i,1]', 're-enable the racy prange in ml_matvec_2d')
+brk('C08', 'R08.8', 'pyiga/genericasm.pxi', None, r"_result = np\.zeros\(\(idx_arr\.shape\[0\], self\.numcomp\[1\], self\.numcomp\[0\]\)\)", '_result = np.zeros((idx_arr.shape[0], self.numcomp[0], self.numcomp[1]))', 'block array declared trial x test components')
 brk('C08', 'R08.7', 'pyiga/genericasm.pxi', None, r"\n    bidx0, = bidx\n", '\n    bidx0 = bidx\n', 'the 1D vector core binds the tuple of block patterns without unpacking it')
 twin('C08', 'pyiga/genericasm.pxi', None, r"\n    bidx0, = bidx\n", '\n    (bidx0,) = bidx\n', 'parenthesised 1-tuple unpacking in the 1D vector core')
 brk('C08', 'R08.2', 'pyiga/assemble.py', 'pyiga.assemble.assemble_entries', r"\(J\[off_diag\], I\[off_diag\]\)\), shape=S\.shape\)", '(I[off_diag], J[off_diag])), shape=S.shape)', 'mirror without swapping coordinates')
